@@ -13,8 +13,9 @@
 (***************************************************************************)
 EXTENDS Integers, Sequences, FiniteSets, TLC, Json
 
-CONSTANTS Universes,    \* sequence of [controls : set, sensors : key -> set of readings]
+CONSTANTS Universes,    \* sequence of [controls : set, controls2 : set, sensors : key -> set of readings]
           ModelToks, SModelToks, CalToks, PNoiseToks, SNoiseToks,
+          AltModelToks, AltPNoiseToks,   \* the same models / noise maps with the controls RENAMED (controls2)
           ConfigVals,   \* [field -> set of value tokens]
           BogusKeys,    \* parameter names that do not exist
           MaxCmds, MaxFits, EmitOn
@@ -26,14 +27,15 @@ VARIABLES uni, params, orig, log, fits, done
 vars == <<uni, params, orig, log, fits, done>>
 
 U == Universes[uni]
-PN(tok) == [id |-> tok, keys |-> U.controls, finite |-> TRUE, positive |-> TRUE]
+CtlOf(m) == IF m \in AltModelToks THEN U.controls2 ELSE U.controls
+PN(tok) == [id |-> tok, keys |-> IF tok \in AltPNoiseToks THEN U.controls2 ELSE U.controls, finite |-> TRUE, positive |-> TRUE]
 SN(tok) == [id |-> tok, keys |-> U.sensors, finite |-> TRUE]
 Configs == [ConfigFields -> UNION {ConfigVals[f] : f \in ConfigFields}]
 ConfigOK(c) == \A f \in ConfigFields : c[f] \in ConfigVals[f]
 
 Init ==
   /\ uni \in DOMAIN Universes
-  /\ \E m \in ModelToks, s \in SModelToks, c \in CalToks, p \in PNoiseToks, n \in SNoiseToks :
+  /\ \E m \in ModelToks, s \in SModelToks, c \in CalToks, p \in PNoiseToks, n \in SNoiseToks :      \* (starts with the original names)
        \E cfg \in {x \in Configs : ConfigOK(x)} :
          params = [symbolic_model |-> m, sensor_models |-> s, calibration_map |-> c,
                    process_noise |-> PN(p), sensor_noises |-> SN(n), config |-> cfg]
@@ -49,14 +51,16 @@ GetSetRoundTrip ==
   /\ UNCHANGED <<uni, params, orig, fits, done>>
 
 \* a top-level parameter is replaced as a whole
-TokDomain(k) == CASE k = "symbolic_model" -> ModelToks [] k = "sensor_models" -> SModelToks [] k = "calibration_map" -> CalToks
+TokDomain(k) == CASE k = "symbolic_model" -> ModelToks \cup AltModelToks [] k = "sensor_models" -> SModelToks [] k = "calibration_map" -> CalToks
+\* (a model can only be exchanged on its own for one with the same control names: the noise map must keep naming its controls)
 SetTok(k, v) ==
   /\ Can /\ k \in {"symbolic_model", "sensor_models", "calibration_map"} /\ v \in TokDomain(k)
+  /\ (k = "symbolic_model" => CtlOf(v) = params.process_noise.keys)
   /\ params' = [params EXCEPT ![k] = v]
   /\ Record("set_params", <<k, v>>, "ok", params')
   /\ UNCHANGED <<uni, orig, fits, done>>
 SetPNoise(t) ==
-  /\ Can /\ t \in PNoiseToks
+  /\ Can /\ t \in PNoiseToks \cup AltPNoiseToks /\ PN(t).keys = CtlOf(params.symbolic_model)
   /\ params' = [params EXCEPT !.process_noise = PN(t)]
   /\ Record("set_params", <<"process_noise", t>>, "ok", params')
   /\ UNCHANGED <<uni, orig, fits, done>>
@@ -80,9 +84,17 @@ SetTwoFields(f1, v1, f2, v2) ==
   /\ Record("set_params", <<f1, v1, f2, v2>>, "ok", params')
   /\ UNCHANGED <<uni, orig, fits, done>>
 SetNoiseAndField(t, f, v) ==
-  /\ Can /\ t \in PNoiseToks /\ f \in ConfigFields /\ v \in ConfigVals[f]
+  /\ Can /\ t \in PNoiseToks \cup AltPNoiseToks /\ PN(t).keys = CtlOf(params.symbolic_model) /\ f \in ConfigFields /\ v \in ConfigVals[f]
   /\ params' = [params EXCEPT !.process_noise = PN(t), !.config[f] = v]
   /\ Record("set_params", <<"process_noise", t, f, v>>, "ok", params')
+  /\ UNCHANGED <<uni, orig, fits, done>>
+
+\* the model AND its process noise in one call: a model whose controls have other names comes with a noise map that names them
+\* (nothing of the previous model -- not even a list of its control names -- may survive, also not after a fit)
+SetModelAndNoise(m, t) ==
+  /\ Can /\ m \in ModelToks \cup AltModelToks /\ t \in PNoiseToks \cup AltPNoiseToks /\ PN(t).keys = CtlOf(m)
+  /\ params' = [params EXCEPT !.symbolic_model = m, !.process_noise = PN(t)]
+  /\ Record("set_params", <<"symbolic_model", m, "process_noise", t>>, "ok", params')
   /\ UNCHANGED <<uni, orig, fits, done>>
 
 \* a replacement configuration AND one of its fields in the same call (the field is applied to the NEW configuration)
@@ -155,12 +167,13 @@ Emit ==
 \* spend nine draws out of ten on set_params)
 SetAny ==
   Can /\ ( \/ \E k \in {"symbolic_model", "sensor_models", "calibration_map"} : \E v \in ModelToks \cup SModelToks \cup CalToks : SetTok(k, v)
-           \/ \E t \in PNoiseToks : SetPNoise(t)
+           \/ \E t \in PNoiseToks \cup AltPNoiseToks : SetPNoise(t)
+           \/ \E m \in ModelToks \cup AltModelToks : \E t \in PNoiseToks \cup AltPNoiseToks : SetModelAndNoise(m, t)
            \/ \E t \in SNoiseToks : SetSNoise(t)
            \/ \E f \in ConfigFields : \E v \in ConfigVals[f] : SetConfigField(f, v)
            \/ \E cfg \in {x \in Configs : ConfigOK(x)} : SetConfig(cfg)
            \/ \E f1 \in ConfigFields : \E f2 \in ConfigFields : \E v1 \in ConfigVals[f1] : \E v2 \in ConfigVals[f2] : SetTwoFields(f1, v1, f2, v2)
-           \/ \E t \in PNoiseToks : \E f \in ConfigFields : \E v \in ConfigVals[f] : SetNoiseAndField(t, f, v)
+           \/ \E t \in PNoiseToks \cup AltPNoiseToks : \E f \in ConfigFields : \E v \in ConfigVals[f] : SetNoiseAndField(t, f, v)
            \/ \E cfg \in {x \in Configs : ConfigOK(x)} : \E f \in ConfigFields : \E v \in ConfigVals[f] : SetConfigAndField(cfg, f, v)
            \/ \E k \in BogusKeys : SetBogus(k) )
 QueryAny == Can /\ \E q \in Queries : Query(q)
@@ -188,6 +201,6 @@ ActConfigFrame ==
   [][ \A f \in ConfigFields :
         params'.config[f] # params.config[f] => (log' # log /\ log'[Len(log')].cmd = "set_params" /\ (log'[Len(log')].args[1] \in {f, "config"} \/ (Len(log'[Len(log')].args) = 4 /\ log'[Len(log')].args[3] = f))) ]_vars
 \* noise maps always name exactly the controls / sensors / readings of the model
-InvNoiseKeys == params.process_noise.keys = U.controls /\ params.sensor_noises.keys = U.sensors
+InvNoiseKeys == params.process_noise.keys = CtlOf(params.symbolic_model) /\ params.sensor_noises.keys = U.sensors
 InvNoiseSane == params.process_noise.finite /\ params.process_noise.positive /\ params.sensor_noises.finite
 =============================================================================
